@@ -55,9 +55,56 @@ type Job struct {
 	HasModel  bool   `json:"has_model,omitempty"`
 }
 
+// streamNote is a string every stream dictionary of a source graph carries
+// (next to what the model put there): strings of a stream dictionary are
+// encrypted with the stream's own key, also when the stream data is not
+// encrypted (leading /Crypt filter).
+const streamNote = "s:6e6f74652028746578742920c3a9"
+
 func (j Job) graph() Graph {
 	g := Graph{}
 	for _, nd := range j.Nodes {
+		if nd.V != nil && nd.V.T == "st" {
+			v := *nd.V
+			has := false
+			for _, k := range v.K {
+				has = has || k == "VerifNote"
+			}
+			if !has {
+				at := len(v.K)
+				for i, k := range v.K {
+					if k > "VerifNote" {
+						at = i
+						break
+					}
+				}
+				v.K = append(append(append([]string{}, v.K[:at]...), "VerifNote"), v.K[at:]...)
+				v.E = append(append(append([]Val{}, v.E[:at]...), Val{T: "s", A: streamNote}), v.E[at:]...)
+			}
+			// every third stream also names an external file (7.3.8.2: /F,
+			// /FFilter, /FDecodeParms are ordinary entries for a copier)
+			if nd.N%3 == 0 {
+				for _, kv := range [][2]string{{"F", "s:65787465726e616c2e646174"}, {"FDecodeParms", "i:0"}, {"FFilter", "n:ASCIIHexDecode"}} {
+					has := false
+					for _, k := range v.K {
+						has = has || k == kv[0]
+					}
+					if has {
+						continue
+					}
+					at := len(v.K)
+					for i, k := range v.K {
+						if k > kv[0] {
+							at = i
+							break
+						}
+					}
+					v.K = append(append(append([]string{}, v.K[:at]...), kv[0]), v.K[at:]...)
+					v.E = append(append(append([]Val{}, v.E[:at]...), Val{T: "s", A: kv[1]}), v.E[at:]...)
+				}
+			}
+			nd.V = &v
+		}
 		g[nd.N] = nd
 	}
 	return g
